@@ -129,3 +129,12 @@ Proof.
   intros He s Hm. specialize (He s). rewrite matches_And, matches_Not, Hm in He. simpl in He.
   destruct (matches r2 s); auto; discriminate.
 Qed.
+
+Lemma matches_alts l s : matches (alts l) s = existsb (fun r => matches r s) l.
+Proof.
+  induction l as [|x l IH]; simpl.
+  - unfold matches. apply matches_at_Emp.
+  - destruct l as [|y l].
+    + simpl. rewrite orb_false_r. reflexivity.
+    + rewrite matches_Alt, IH. reflexivity.
+Qed.
